@@ -1662,6 +1662,9 @@ def driver_source(specs, status, src_root):
             if status.get(n, {}).get("translated"):
                 imports.append(f"import FinamModel.Translated.{n}")
                 cases.append(f'  | "{n}" => toJ (Tr.{n} (heapOfJson (argAt args 0)) (fromJ (argAt args 1)))')
+        if status.get("validate_composition", {}).get("translated"):
+            imports.append("import FinamModel.Translated.validate_composition")
+            cases.append('  | "validate_composition" => toJ (Tr.validate_composition (heapOfJson (argAt args 0)) (fromJ (argAt args 1)))')
         for n in ("map_inputs", "map_outputs"):
             if status.get(n, {}).get("translated"):
                 imports.append(f"import FinamModel.Translated.{n}")
